@@ -4,7 +4,7 @@
    are restored on a bubble, (c) the order of diagnostics.  (a) and (b) are shown here not to
    reach any wire value or machine state; (c) is compared as multisets by the check. *)
 From Coq Require Import Permutation.
-From HclV Require Import Base Expr Machine MachineSpec MachineProofs SchedSpec SchedProofs C12Lemmas.
+From HclV Require Import Base Expr Machine MachineSpec MachineProofs SchedSpec SchedProofs C12Lemmas TableSpec TableProofs.
 Open Scope string_scope.
 Open Scope N_scope.
 
@@ -30,3 +30,43 @@ Theorem C12_defaults_order_free :
     forall k, lookup v1 k = lookup v2 k.
 Proof. exact defaults_order_free. Qed.
 Print Assumptions C12_defaults_order_free.
+
+(* ---- (d) the iteration order of the value map (HashMap<String, WireValue>) never reaches the
+   output (TableSpec.v / TableProofs.v).  The model keeps the map as an association list in
+   arbitrary order; NoDup keys is the representation invariant of a map, established by
+   initial_state and kept by every cycle (C12_map_keys_stay_distinct) *)
+
+(* the per-cycle debug table: the same map enumerated in another order prints the same text *)
+Theorem C12_debug_table_order_free :
+  forall o p vals vals',
+    NoDup (map fst vals) -> Permutation vals vals' ->
+    dump_values o p vals = dump_values o p vals'.
+Proof. exact table_order_free_holds. Qed.
+Print Assumptions C12_debug_table_order_free.
+
+(* because rows are sorted by a strict total order on names (upper-cased bytes, ties broken by
+   the raw bytes: two distinct names never compare equal) *)
+Theorem C12_table_key_order_is_strict_total : stmt_key_order_strict_total.
+Proof. exact key_order_strict_total_holds. Qed.
+Print Assumptions C12_table_key_order_is_strict_total.
+
+(* a whole cycle under any options: the same text, and states that again differ only in the
+   enumeration order of the map *)
+Theorem C12_step_map_order_free :
+  forall f o p s s',
+    NoDup (map fst (values s)) -> same_state s s' ->
+    same_outcome (step f o p s) (step f o p s').
+Proof. exact step_order_free_holds. Qed.
+Print Assumptions C12_step_map_order_free.
+
+(* a whole run - traces, -d tables, final dump: byte-identical output *)
+Theorem C12_run_map_order_free :
+  forall fuel f o p s s',
+    NoDup (map fst (values s)) -> same_state s s' ->
+    same_outcome (run fuel f o p s) (run fuel f o p s').
+Proof. exact run_order_free_holds. Qed.
+Print Assumptions C12_run_map_order_free.
+
+Theorem C12_map_keys_stay_distinct : stmt_initial_keys_distinct /\ stmt_step_keys_distinct.
+Proof. split; [exact initial_keys_distinct_holds | exact step_keys_distinct_holds]. Qed.
+Print Assumptions C12_map_keys_stay_distinct.
